@@ -1,8 +1,573 @@
 import QP.Base
+/-!
+# C11 — the pulse storage stays loadable whatever point a store operation fails at
+
+Model of `qupulse/serialization.py`: `PulseStorage.__setitem__/overwrite/__delitem__` (collection of the
+transaction in child-before-parent order, the `put` loop, publication to `_temporary_storage`),
+`FilesystemBackend.put/delete`, `ZipFileBackend.put/delete/_update`, `DictBackend.put/delete`.
+
+A transaction is compiled, per backend, into the list of primitive file-system / archive / dict steps the
+code performs, in the order it performs them.  `run : List Step → FS → FS`; a failure (exception or crash)
+at position `k` leaves `run (steps.take k) fs₀`.  `Loadable` is the spec (every listed identifier loads with
+all references resolving transitively; every identifier holds its old or its new document); `loadableB` is
+its executable twin used as judge of the states the real code leaves behind.
+
+Two compilations are modelled for the two file backends: the one of the pinned tree (`dirPinned`,
+`zipPinned`: truncate-then-write; copy, `os.remove`, `os.rename`, append) for which the property is false
+(PF-17, see `QP.Props.C11.*_counterexample`) and the repaired one (`dir`, `zip`: complete temporary file,
+then one `os.replace`) of `fixes/PF-17.diff`.
+-/
 namespace QP.C11
 open Sexp
 
+abbrev Id := Nat
+
+/-- what a stored file / archive member holds: an incomplete text (empty or cut off: does not parse) or a
+complete JSON document, abstracted to a content token and the identifiers it references -/
+inductive Data where
+  | garbage
+  | doc (tok : Nat) (refs : List Id)
+  deriving DecidableEq, Repr
+
+/-- association list, first match wins -/
+abbrev Store := List (Id × Data)
+
+namespace Store
+def get : Store → Id → Option Data
+  | [], _ => none
+  | (j, d) :: r, i => if j = i then some d else get r i
+def put (s : Store) (i : Id) (d : Data) : Store := (i, d) :: s
+def erase (s : Store) (i : Id) : Store := s.filter (fun p => !(p.1 == i))
+/-- keys without repetition (what the backend lists) -/
+def ids : Store → List Id
+  | [] => []
+  | (j, _) :: r => j :: (ids r).filter (fun k => !(k == j))
+/-- canonical form: one pair per listed identifier -/
+def norm (s : Store) : Store := s.ids.filterMap (fun i => (s.get i).map (fun d => (i, d)))
+end Store
+
+/-! ## the spec, over views `Id → Option Data` -/
+
+abbrev G := Id → Option Data
+
+/-- `i` loads: it holds a complete document and every reference of it loads (well-founded: a reference
+cycle does not load — the real loader recurses forever) -/
+inductive Loads (g : G) : Id → Prop where
+  | mk (i : Id) (tok : Nat) (refs : List Id) :
+      g i = some (.doc tok refs) → (∀ r, r ∈ refs → Loads g r) → Loads g i
+
+/-- every listed identifier loads -/
+def AllLoad (g : G) : Prop := ∀ i, g i ≠ none → Loads g i
+
+/-- every identifier holds its old or its new content -/
+def OldOrNew (g pre fin : G) : Prop := ∀ i, g i = pre i ∨ g i = fin i
+
+def Loadable (g pre fin : G) : Prop := AllLoad g ∧ OldOrNew g pre fin
+
+def gput (g : G) (i : Id) (d : Data) : G := fun j => if j = i then some d else g j
+def gerase (g : G) (i : Id) : G := fun j => if j = i then none else g j
+
+/-! ## executable twin (judge) -/
+
+/-- loader with the loaded identifier removed below it; fuel `s.length` always suffices
+(`QP.Props.C11.loadsB_iff`) -/
+def loadsE : Nat → Store → Id → Bool
+  | 0, _, _ => false
+  | n + 1, s, i =>
+    match s.get i with
+    | some (.doc _ refs) => refs.all (fun r => loadsE n (s.erase i) r)
+    | _ => false
+
+def loadsB (s : Store) (i : Id) : Bool := loadsE s.length s i
+
+def allLoadB (s : Store) : Bool := s.ids.all (loadsB s)
+
+def oldOrNewB (s pre fin : Store) : Bool :=
+  (s.ids ++ pre.ids ++ fin.ids).all (fun i => s.get i == pre.get i || s.get i == fin.get i)
+
+def loadableB (s pre fin : Store) : Bool := allLoadB s && oldOrNewB s pre fin
+
+/-! ## the modelled world -/
+
+/-- directory of the `FilesystemBackend` (`entries`: the `<id>.json` files, `tmpText`: the temporary file),
+the archive of the `ZipFileBackend` (`none`: no readable archive at its path) and its temporary archive,
+the dict of the `DictBackend`, and `PulseStorage._temporary_storage` (`cache`) -/
+structure FS where
+  entries : Store := []
+  tmpText : Option Data := none
+  archive : Option Store := none
+  tmpZip : Option Store := none
+  dict : Store := []
+  cache : Store := []
+  deriving DecidableEq, Repr
+
+inductive Step where
+  -- directory backend
+  | truncate (i : Id)               -- `open('<i>.json', 'w')`
+  | write (i : Id) (d : Data)       -- `file.write(data)` (+ close) on `<i>.json`
+  | remove (i : Id)                 -- `os.remove('<i>.json')`
+  | tmpCreate                       -- `open('<i>.json.tmp', 'w')`
+  | tmpWrite (d : Data)             -- `file.write(data)` (+ close) on the temporary file
+  | tmpRename (i : Id)              -- `os.replace(tmp, '<i>.json')`
+  -- zip backend
+  | zTmpCreate                      -- `tempfile.mkstemp` + `ZipFile(tmp, 'w')`
+  | zCopy (i : Id)                  -- `zout.writestr(item, zin.read(item.filename))`
+  | zTmpAppend (i : Id) (d : Data)  -- `zout.writestr(filename, data)`
+  | zRemove                         -- `os.remove(root)`
+  | zRename                         -- `os.rename(tmp, root)` / `os.replace(tmp, root)`
+  | zAppend (i : Id) (d : Data)     -- `ZipFile(root, 'a').writestr(filename, data)`
+  -- dict backend
+  | dictPut (i : Id) (d : Data)
+  | dictDel (i : Id)
+  -- PulseStorage
+  | publish (ws : List (Id × Data)) -- `_temporary_storage.update(**_transaction_storage)`
+  | uncache (i : Id)                -- `del _temporary_storage[i]`
+  deriving DecidableEq, Repr
+
+def step (fs : FS) : Step → FS
+  | .truncate i => { fs with entries := fs.entries.put i .garbage }
+  | .write i d => { fs with entries := fs.entries.put i d }
+  | .remove i => { fs with entries := fs.entries.erase i }
+  | .tmpCreate => { fs with tmpText := some .garbage }
+  | .tmpWrite d => { fs with tmpText := some d }
+  | .tmpRename i =>
+    match fs.tmpText with
+    | some d => { fs with entries := fs.entries.put i d, tmpText := none }
+    | none => fs
+  | .zTmpCreate => { fs with tmpZip := some [] }
+  | .zCopy i =>
+    match fs.archive, fs.tmpZip with
+    | some a, some t =>
+      match a.get i with
+      | some d => { fs with tmpZip := some (t.put i d) }
+      | none => fs
+    | _, _ => fs
+  | .zTmpAppend i d =>
+    match fs.tmpZip with
+    | some t => { fs with tmpZip := some (t.put i d) }
+    | none => fs
+  | .zRemove => { fs with archive := none }
+  | .zRename =>
+    match fs.tmpZip with
+    | some t => { fs with archive := some t, tmpZip := none }
+    | none => fs
+  | .zAppend i d => { fs with archive := some ((fs.archive.getD []).put i d) }
+  | .dictPut i d => { fs with dict := fs.dict.put i d }
+  | .dictDel i => { fs with dict := fs.dict.erase i }
+  | .publish ws => { fs with cache := ws.foldl (fun c p => c.put p.1 p.2) fs.cache }
+  | .uncache i => { fs with cache := fs.cache.erase i }
+
+def run : List Step → FS → FS
+  | [], fs => fs
+  | s :: ss, fs => run ss (step fs s)
+
+/-- `dirPinned` / `zipPinned`: the code of the pinned tree; `dir` / `zip`: with `fixes/PF-17.diff` -/
+inductive Backend where
+  | dir | zip | dict | dirPinned | zipPinned
+  deriving DecidableEq, Repr
+
+def Backend.fixed : Backend → Bool
+  | .dir | .zip | .dict => true
+  | _ => false
+
+/-- what a *new* backend object over the same directory / archive lists and returns -/
+def view : Backend → FS → Option Store
+  | .dir, fs | .dirPinned, fs => some fs.entries
+  | .zip, fs | .zipPinned, fs => fs.archive
+  | .dict, fs => some fs.dict
+
+def existsB (b : Backend) (fs : FS) (i : Id) : Bool :=
+  match view b fs with
+  | some s => (s.get i).isSome
+  | none => false
+
+inductive Op where
+  | put (i : Id) (d : Data) (overwrite : Bool)
+  | delete (i : Id)
+  deriving DecidableEq, Repr
+
+def Op.id : Op → Id
+  | .put i _ _ => i
+  | .delete i => i
+
+inductive Err where
+  | fileExists   -- `FileExistsError` of `put(..., overwrite=False)`
+  | keyError     -- `KeyError` of `delete`
+  | typeError    -- un-serializable object met by the JSON encoder
+  | clash        -- `RuntimeError`: identifier already taken by a different object
+  | valueError   -- `__setitem__` under a name that is not the serializable's identifier
+  deriving DecidableEq, Repr
+
+/-- `for item in zin.infolist(): if item.filename != filename: zout.writestr(item, …)` -/
+def copyArchiveWithout (i : Id) (a : Store) : List Step :=
+  (a.ids.filter (fun k => !(k == i))).map Step.zCopy
+
+def members (fs : FS) : Store := fs.archive.getD []
+
+def compileOp (b : Backend) (fs : FS) : Op → Except Err (List Step)
+  | .put i d ow =>
+    if existsB b fs i && !ow then .error .fileExists else
+    .ok (match b with
+      | .dir => [.tmpCreate, .tmpWrite d, .tmpRename i]
+      | .dirPinned => [.truncate i, .write i d]
+      | .zip => .zTmpCreate :: copyArchiveWithout i (members fs) ++ [.zTmpAppend i d, .zRename]
+      | .zipPinned =>
+        if existsB b fs i then
+          .zTmpCreate :: copyArchiveWithout i (members fs) ++ [.zRemove, .zRename, .zAppend i d]
+        else [.zAppend i d]
+      | .dict => [.dictPut i d])
+  | .delete i =>
+    if !existsB b fs i then .error .keyError else
+    .ok (match b with
+      | .dir | .dirPinned => [.remove i]
+      | .zip => .zTmpCreate :: copyArchiveWithout i (members fs) ++ [.zRename]
+      | .zipPinned => .zTmpCreate :: copyArchiveWithout i (members fs) ++ [.zRemove, .zRename]
+      | .dict => [.dictDel i])
+
+/-- the steps of a sequence of backend calls; stops at the first call that raises -/
+def compileOps (b : Backend) : FS → List Op → List Step × Option Err
+  | _, [] => ([], none)
+  | fs, op :: ops =>
+    match compileOp b fs op with
+    | .error e => ([], some e)
+    | .ok ss =>
+      let r := compileOps b (run ss fs) ops
+      (ss ++ r.1, r.2)
+
+/-! ## PulseStorage level: collecting the transaction -/
+
+/-- a serializable with its sub-serializables in the order the JSON encoder meets them.
+`oid`: identity of the Python object (a shared sub-template occurs several times with the same `oid`);
+`tok`: token of the document a named node serializes to; `ser = false`: its serialization data holds an
+object the encoder cannot serialize; `reused`: the object is the one the storage already caches under this
+identifier -/
+inductive Node where
+  | mk (id : Option Id) (oid : Nat) (tok : Nat) (ser : Bool) (reused : Bool) (children : List Node)
+  deriving Repr
+
+/-- `_transaction_storage`: identifier, object identity, serialization — in insertion order -/
+abbrev TxnStore := List (Id × Nat × Data)
+
+def TxnStore.oid? : TxnStore → Id → Option Nat
+  | [], _ => none
+  | (j, o, _) :: r, i => if j = i then some o else TxnStore.oid? r i
+
+def TxnStore.writes (t : TxnStore) : List (Id × Data) := t.map (fun e => (e.1, e.2.2))
+
+mutual
+/-- the sub-serializables of one node, in the order the encoder meets them: references of the produced
+document and the transaction storage afterwards -/
+def encodeChildren (present : Id → Bool) : List Node → TxnStore → Except Err (List Id × TxnStore)
+  | [], t => .ok ([], t)
+  | c :: cs, t =>
+    match encodeChild present c t with
+    | .error e => .error e
+    | .ok (r1, t1) =>
+      match encodeChildren present cs t1 with
+      | .error e => .error e
+      | .ok (r2, t2) => .ok (r1 ++ r2, t2)
+/-- `JSONSerializableEncoder.default(o)` -/
+def encodeChild (present : Id → Bool) : Node → TxnStore → Except Err (List Id × TxnStore)
+  | .mk (some i) oid tok ser reused children, t =>
+    if present i then
+      (if reused then .ok ([i], t) else .error .clash)
+    else
+      -- `self.storage[i] = o` → `__setitem__` → nested `overwrite(i, o)`
+      match t.oid? i with
+      | some o => if o = oid then .ok ([i], t) else .error .clash   -- already collected / taken by another object
+      | none =>
+        if !ser then .error .typeError else
+        match encodeChildren present children t with
+        | .error e => .error e
+        | .ok (refs, t') =>
+          if (t'.oid? i).isSome then .error .clash   -- a sub-serializable of `o` took `o`'s identifier
+          else .ok ([i], t' ++ [(i, oid, .doc tok refs)])
+  | .mk none _ _ ser _ children, t =>
+    -- anonymous: embedded into the parent's document
+    if !ser then .error .typeError else encodeChildren present children t
+end
+
+def Node.tok : Node → Nat
+  | .mk _ _ tok _ _ _ => tok
+def Node.id : Node → Option Id
+  | .mk id _ _ _ _ _ => id
+def Node.oid : Node → Nat
+  | .mk _ oid _ _ _ _ => oid
+def Node.ser : Node → Bool
+  | .mk _ _ _ ser _ _ => ser
+def Node.reused : Node → Bool
+  | .mk _ _ _ _ r _ => r
+def Node.children : Node → List Node
+  | .mk _ _ _ _ _ c => c
+
+/-- top-level `PulseStorage.overwrite(i, node)`: the transaction storage in insertion order -/
+def collect (present : Id → Bool) (i : Id) (n : Node) : Except Err (List (Id × Data)) :=
+  if !n.ser then .error .typeError else
+  match encodeChildren present n.children [] with
+  | .error e => .error e
+  | .ok (refs, t) =>
+    if (t.oid? i).isSome then .error .clash   -- a sub-serializable took the identifier of the stored object
+    else .ok (t.writes ++ [(i, .doc n.tok refs)])
+
+inductive Txn where
+  | store (ws : List (Id × Data))   -- an already collected transaction: `put(id, doc, overwrite=True)` each, then publish
+  | overwrite (i : Id) (n : Node)   -- `PulseStorage.overwrite(i, n)`
+  | setitem (i : Id) (n : Node)     -- `PulseStorage.__setitem__(i, n)`
+  | del (i : Id)                    -- `PulseStorage.__delitem__(i)`
+  | raw (ops : List Op)             -- direct calls on the backend object
+  deriving Repr
+
+def presentB (b : Backend) (fs : FS) (i : Id) : Bool :=
+  (fs.cache.get i).isSome || existsB b fs i
+
+/-- what a transaction amounts to once the PulseStorage front end (identifier checks, collection) is through -/
+inductive Plan where
+  | puts (ws : List (Id × Data))   -- `put(id, doc, overwrite=True)` each in this order, then publish
+  | delete (i : Id)                -- `del backend[i]`, then drop the cache entry
+  | calls (ops : List Op)          -- backend calls only
+  deriving Repr
+
+/-- the front end: raises (`.error`) before any backend call, or yields the plan -/
+def plan (b : Backend) (fs : FS) : Txn → Except Err Plan
+  | .store ws => .ok (.puts ws)
+  | .overwrite i n => (collect (presentB b fs) i n).map .puts
+  | .setitem i n =>
+    if n.id ≠ some i then .error .valueError else
+    if (fs.cache.get i).isSome then
+      (if n.reused then .ok (.calls []) else .error .clash)
+    else if existsB b fs i then .error .clash else
+    (collect (presentB b fs) i n).map .puts
+  | .del i => .ok (.delete i)
+  | .raw ops => .ok (.calls ops)
+
+def Plan.ops : Plan → List Op
+  | .puts ws => ws.map (fun p => Op.put p.1 p.2 true)
+  | .delete i => [.delete i]
+  | .calls ops => ops
+
+/-- the cache update that follows the backend calls when none of them raised -/
+def Plan.epilogue : Plan → List Step
+  | .puts ws => [.publish ws]
+  | .delete i => [.uncache i]
+  | .calls _ => []
+
+def Plan.steps (b : Backend) (fs : FS) (p : Plan) : List Step × Option Err :=
+  let r := compileOps b fs p.ops
+  match r.2 with
+  | none => (r.1 ++ p.epilogue, none)
+  | some e => (r.1, some e)
+
+/-- the steps of one transaction and the exception it ends with when nothing is injected -/
+def compileTxn (b : Backend) (fs : FS) (txn : Txn) : List Step × Option Err :=
+  match plan b fs txn with
+  | .error e => ([], some e)
+  | .ok p => p.steps b fs
+
+/-- the backend calls a transaction amounts to (none when the front end raises) -/
+def txnOps (b : Backend) (fs : FS) (txn : Txn) : List Op :=
+  match plan b fs txn with
+  | .error _ => []
+  | .ok p => p.ops
+
+/-! ## the intended effect of a transaction on the view -/
+
+def applyOp (s : Store) : Op → Store
+  | .put i d _ => s.put i d
+  | .delete i => s.erase i
+
+def applyOps (s : Store) (ops : List Op) : Store := ops.foldl applyOp s
+
+/-- well-formedness of one backend call against the current view: a written document is complete and its
+references load without the written identifier (children first, no cycle); a deleted entry is referenced
+by no other entry -/
+def WFop (g : G) : Op → Prop
+  | .put i d _ => ∃ tok refs, d = .doc tok refs ∧ ∀ r, r ∈ refs → Loads (gerase g i) r
+  | .delete i => ∀ j d, j ≠ i → g j = some d → ∀ tok refs, d = .doc tok refs → i ∉ refs
+
+def applyOpG (g : G) : Op → G
+  | .put i d _ => gput g i d
+  | .delete i => gerase g i
+
+def applyOpsG (g : G) (ops : List Op) : G := ops.foldl applyOpG g
+
+def WFops : G → List Op → Prop
+  | _, [] => True
+  | g, op :: ops => WFop g op ∧ WFops (applyOpG g op) ops
+
+/-- executable twin of `WFop` / `WFops` over stores -/
+def wfOpB (s : Store) : Op → Bool
+  | .put i d _ =>
+    match d with
+    | .doc _ refs => refs.all (loadsB (s.erase i))
+    | .garbage => false
+  | .delete i =>
+    s.ids.all (fun j => j == i ||
+      match s.get j with
+      | some (.doc _ refs) => !(refs.contains i)
+      | _ => true)
+
+def wfOpsB : Store → List Op → Bool
+  | _, [] => true
+  | s, op :: ops => wfOpB s op && wfOpsB (applyOp s op) ops
+
+def nodupB : List Id → Bool
+  | [] => true
+  | i :: r => !(r.contains i) && nodupB r
+
+mutual
+/-- every sub-serializable taken from the storage (`reused`) satisfies `P` (used with
+`P i := i loads without the identifier being stored`: the new content must not refer back to itself) -/
+def Node.reusedOK (P : Id → Prop) : Node → Prop
+  | .mk id _ _ _ reused children => (reused = true → ∀ i, id = some i → P i) ∧ reusedOKs P children
+def reusedOKs (P : Id → Prop) : List Node → Prop
+  | [] => True
+  | c :: cs => c.reusedOK P ∧ reusedOKs P cs
+end
+
+/-- the state a failure leaves behind is acceptable: a new backend object can list it, everything listed
+loads, every identifier holds its old or its new content -/
+def LoadableFS (b : Backend) (fs : FS) (pre fin : Store) : Prop :=
+  ∃ s, view b fs = some s ∧ Loadable s.get pre.get fin.get
+
+def loadableFSB (b : Backend) (fs : FS) (pre fin : Store) : Bool :=
+  match view b fs with
+  | some s => loadableB s pre fin
+  | none => false
+
+/-- a transaction is well formed against the stored content `pre`: every backend call is (`WFop`) and no
+identifier is touched twice -/
+def WFtxn (b : Backend) (fs : FS) (txn : Txn) (pre : Store) : Prop :=
+  WFops pre.get (txnOps b fs txn) ∧ ((txnOps b fs txn).map Op.id).Nodup
+
+def wfTxnB (b : Backend) (fs : FS) (txn : Txn) (pre : Store) : Bool :=
+  wfOpsB pre (txnOps b fs txn) && nodupB ((txnOps b fs txn).map Op.id)
+
+/-- the content the transaction is meant to produce -/
+def finalStore (b : Backend) (fs : FS) (txn : Txn) (pre : Store) : Store := applyOps pre (txnOps b fs txn)
+
+/-! ## line protocol -/
+
+def dataOf? : Sexp → Option Data
+  | .atom "g" => some .garbage
+  | .list [.atom "d", t, .list refs] => do
+    let t ← nat? t
+    let rs ← refs.mapM nat?
+    some (.doc t rs)
+  | _ => none
+
+def ofData : Data → Sexp
+  | .garbage => .atom "g"
+  | .doc t refs => .list [.atom "d", ofNat t, .list (refs.map ofNat)]
+
+def storeOf? : Sexp → Option Store
+  | .list xs => xs.mapM (fun x => match x with
+    | .list [i, d] => do some ((← nat? i), (← dataOf? d))
+    | _ => none)
+  | _ => none
+
+def ofStore (s : Store) : Sexp := .list (s.norm.map (fun p => .list [ofNat p.1, ofData p.2]))
+
+def ofView : Option Store → Sexp
+  | none => .atom "missing"
+  | some s => ofStore s
+
+def viewOf? : Sexp → Option (Option Store)
+  | .atom "missing" => some none
+  | s => (storeOf? s).map some
+
+def backendOf? : Sexp → Option Backend
+  | .atom "dir" => some .dir
+  | .atom "zip" => some .zip
+  | .atom "dict" => some .dict
+  | .atom "dir-pinned" => some .dirPinned
+  | .atom "zip-pinned" => some .zipPinned
+  | _ => none
+
+partial def nodeOf? : Sexp → Option Node
+  | .list [.atom "n", i, oid, t, ser, reused, .list ch] => do
+    let id ← (match i with | .atom "-" => some none | x => (nat? x).map some)
+    let oid ← nat? oid
+    let t ← nat? t
+    let ser ← bool? ser
+    let reused ← bool? reused
+    let ch ← ch.mapM nodeOf?
+    some (.mk id oid t ser reused ch)
+  | _ => none
+
+def opOf? : Sexp → Option Op
+  | .list [.atom "put", i, d, ow] => do some (.put (← nat? i) (← dataOf? d) (← bool? ow))
+  | .list [.atom "delete", i] => do some (.delete (← nat? i))
+  | _ => none
+
+def txnOf? : Sexp → Option Txn
+  | .list [.atom "store", ws] => (storeOf? ws).map .store
+  | .list [.atom "overwrite", i, n] => do some (.overwrite (← nat? i) (← nodeOf? n))
+  | .list [.atom "setitem", i, n] => do some (.setitem (← nat? i) (← nodeOf? n))
+  | .list [.atom "del", i] => do some (.del (← nat? i))
+  | .list [.atom "raw", .list ops] => (ops.mapM opOf?).map .raw
+  | _ => none
+
+def Step.kind : Step → String
+  | .truncate _ => "open" | .write _ _ => "write" | .remove _ => "remove"
+  | .tmpCreate => "open" | .tmpWrite _ => "write" | .tmpRename _ => "rename"
+  | .zTmpCreate => "mkstemp" | .zCopy _ => "writestr" | .zTmpAppend _ _ => "writestr"
+  | .zRemove => "remove" | .zRename => "rename" | .zAppend _ _ => "writestr"
+  | .dictPut _ _ => "dictput" | .dictDel _ => "dictdel"
+  | .publish _ => "publish" | .uncache _ => "uncache"
+
+def ofErr : Option Err → Sexp
+  | none => .atom "none"
+  | some .fileExists => .atom "file_exists"
+  | some .keyError => .atom "key_error"
+  | some .typeError => .atom "type_error"
+  | some .clash => .atom "clash"
+  | some .valueError => .atom "value_error"
+
+/-- which clause of `Loadable` a view violates -/
+def judge (v : Option Store) (pre fin : Store) : Sexp :=
+  match v with
+  | none => .list [.atom "violates", .atom "backend-unreadable"]
+  | some s =>
+    match s.ids.filter (fun i => !(loadsB s i)) with
+    | i :: _ => .list [.atom "violates", .atom "does-not-load", ofNat i]
+    | [] =>
+      match (s.ids ++ pre.ids ++ fin.ids).filter (fun i => !(s.get i == pre.get i || s.get i == fin.get i)) with
+      | i :: _ => .list [.atom "violates", .atom "neither-old-nor-new", ofNat i]
+      | [] => .atom "ok"
+
+def mkFS (b : Backend) (s : Store) (cache : Store) : FS :=
+  match b with
+  | .dir | .dirPinned => { entries := s, cache := cache }
+  | .zip | .zipPinned => { archive := some s, cache := cache }
+  | .dict => { dict := s, cache := cache }
+
+def prefixStates : List Step → FS → List FS
+  | [], fs => [fs]
+  | s :: ss, fs => fs :: prefixStates ss (step fs s)
+
 def handle : List Sexp → Sexp
-  | _ => Sexp.err "c11-not-implemented"
+  -- (c11 crash <backend> <pre-store> <cache-store> <txn>): every prefix state with its verdict
+  | [.atom "crash", b, pre, cache, txn] =>
+    match backendOf? b, storeOf? pre, storeOf? cache, txnOf? txn with
+    | some b, some pre, some cache, some txn =>
+      let fs := mkFS b pre cache
+      let r := compileTxn b fs txn
+      let fin := finalStore b fs txn pre
+      let wf := wfTxnB b fs txn pre
+      .list [.atom "ok", ofErr r.2, ofBool wf, .list (r.1.map (fun s => .atom s.kind)), ofStore fin,
+        .list ((prefixStates r.1 fs).map (fun st =>
+          .list [ofView (view b st), judge (view b st) pre fin, .list (st.cache.ids.map ofNat)]))]
+    | _, _, _, _ => Sexp.err "bad-args"
+  -- (c11 judge <view|missing> <pre-store> <fin-store>)
+  | [.atom "judge", v, pre, fin] =>
+    match viewOf? v, storeOf? pre, storeOf? fin with
+    | some v, some pre, some fin => judge v pre fin
+    | _, _, _ => Sexp.err "bad-args"
+  -- (c11 loads <store>): per listed identifier whether it loads
+  | [.atom "loads", s] =>
+    match storeOf? s with
+    | some s => .list (s.ids.map (fun i => .list [ofNat i, ofBool (loadsB s i)]))
+    | none => Sexp.err "bad-args"
+  | _ => Sexp.err "c11-unknown-request"
 
 end QP.C11
